@@ -15,6 +15,7 @@ import difflib
 import logging
 import os
 import typing
+import uuid
 
 import pydantic.typing
 import re
@@ -639,10 +640,27 @@ class FlowIRExperimentConfiguration:
 
         if create_instance_files and (exists_manifest is False or update_instance_files is True):
             try:
-                with open(manifest_file, 'w') as f:
-                    experiment.model.frontends.flowir.yaml_dump(self.manifestData, f)
+                self._atomic_yaml_dump(manifest_file, self.manifestData)
             except Exception as e:
                 out_errors.append(e)
+
+    @classmethod
+    def _atomic_yaml_dump(cls, path: str, data: Any, **kwargs):
+        """Writes YAML to a temporary file next to @path and then renames it over @path.
+
+        Readers (and a process that dies mid-way) either see the complete previous file or the complete new one.
+        """
+        temp_path = '%s.%s.tmp' % (path, uuid.uuid4())
+        try:
+            with open(temp_path, 'w') as f:
+                experiment.model.frontends.flowir.yaml_dump(data, f, **kwargs)
+            os.rename(temp_path, path)
+        except Exception:
+            try:
+                os.remove(temp_path)
+            except OSError:
+                pass
+            raise
 
     @property
     def manifestData(self) -> Dict[str, str]:
@@ -685,14 +703,11 @@ class FlowIRExperimentConfiguration:
         This is version of FlowIR without any component replication
         """
         instance_file = os.path.join(self._conf_dir, 'flowir_instance.yaml')
-        with open(instance_file, 'w') as f:
-            primitive = self._unreplicated.instance(ignore_errors=True, inject_missing_fields=False,
-                                                    fill_in_all=False, is_primitive=True)
-            # primitive = experiment.model.frontends.flowir.FlowIR.compress_flowir(primitive)
-            pretty_primitive = experiment.model.frontends.flowir.FlowIR.pretty_flowir_sort(primitive)
-            experiment.model.frontends.flowir.yaml_dump(
-                pretty_primitive, f, sort_keys=False, default_flow_style=False
-            )
+        primitive = self._unreplicated.instance(ignore_errors=True, inject_missing_fields=False,
+                                                fill_in_all=False, is_primitive=True)
+        # primitive = experiment.model.frontends.flowir.FlowIR.compress_flowir(primitive)
+        pretty_primitive = experiment.model.frontends.flowir.FlowIR.pretty_flowir_sort(primitive)
+        self._atomic_yaml_dump(instance_file, pretty_primitive, sort_keys=False, default_flow_style=False)
 
     @property
     def configurationDirectory(self):
